@@ -17,6 +17,7 @@ type decision struct {
 	choice int
 	alts   []int // remaining alternatives not yet explored
 	pos    int   // trail position where this decision's constraint was added
+	forking bool
 }
 
 type pathEnd struct {
@@ -73,6 +74,7 @@ type Stats struct {
 	Havocked                                  map[string]int
 	Assumptions                               []string
 	PanicChecks                               int
+	ForkSites                                 map[string]int
 }
 
 type Interp struct {
@@ -120,7 +122,18 @@ type Interp struct {
 	allocHook  func(n *Term)
 	digitCache map[*Term]StrV
 	digitList  []*Term
-	natives    map[string]nativeFn
+	lastNow    *Term
+	pid        *Term
+
+	// work sharing: the coordinator cuts paths after frontierDepth forking
+	// decisions and records the decision prefixes; workers explore below a pinned
+	// prefix.
+	frontierDepth int
+	frontier      [][]int
+	pinned        int
+	forks         int
+	natives   map[string]nativeFn
+	intrinsicsExtra map[string]func(in *Interp, args []Value) Value
 }
 
 type nativeFn func(in *Interp, fn *ssa.Function, args []Value) Value
@@ -132,11 +145,13 @@ func NewInterp(prog *ssa.Program, cfg Config) *Interp {
 	in.stats.Funcs = map[string]int{}
 	in.stats.Models = map[string]int{}
 	in.stats.Havocked = map[string]int{}
+	in.stats.ForkSites = map[string]int{}
 	in.knownHits = map[string]int{}
 	in.coverSample = map[string]bool{}
 	in.violSeen = map[string]bool{}
 	in.modelTypes = map[string]types.Type{}
 	in.natives = map[string]nativeFn{}
+	in.intrinsicsExtra = map[string]func(in *Interp, args []Value) Value{}
 	registerNatives(in)
 	if in.cfg.Unwind == 0 {
 		in.cfg.Unwind = 8
@@ -152,6 +167,7 @@ func NewInterp(prog *ssa.Program, cfg Config) *Interp {
 
 func (in *Interp) resetPath() {
 	in.nDec = 0
+	in.forks = 0
 	in.pos = 0
 	in.nextObj = 0
 	in.globals = map[*ssa.Global]*Obj{}
@@ -171,6 +187,8 @@ func (in *Interp) resetPath() {
 	in.sums = nil
 	in.digitCache = map[*Term]StrV{}
 	in.digitList = nil
+	in.lastNow = nil
+	in.pid = nil
 }
 
 // RunHarness explores all paths of the harness function.
@@ -185,9 +203,15 @@ func (in *Interp) RunHarness(fn *ssa.Function) error {
 	for {
 		in.resetPath()
 		reason := in.runPath(fn)
-		in.stats.Paths++
+		if reason != "frontier" {
+			in.stats.Paths++
+		}
 		if in.cfg.Verbose {
-			fmt.Fprintf(os.Stderr, "[%s] path %d ended: %s (decisions %d)\n", in.hname, in.stats.Paths, reason, in.nDec)
+			last := ""
+			if reason == "unwind" && len(in.inconclusive) > 0 {
+				last = " :: " + in.inconclusive[len(in.inconclusive)-1]
+			}
+			fmt.Fprintf(os.Stderr, "[%s] path %d ended: %s (decisions %d)%s\n", in.hname, in.stats.Paths, reason, in.nDec, last)
 		}
 		switch {
 		case reason == "unwind":
@@ -197,10 +221,10 @@ func (in *Interp) RunHarness(fn *ssa.Function) error {
 		}
 		// advance DFS
 		k := len(in.prefix) - 1
-		for k >= 0 && len(in.prefix[k].alts) == 0 {
+		for k >= in.pinned && len(in.prefix[k].alts) == 0 {
 			k--
 		}
-		if k < 0 {
+		if k < in.pinned {
 			break
 		}
 		d := &in.prefix[k]
@@ -291,6 +315,9 @@ func (in *Interp) decide(feas func() []int) int {
 	in.nDec++
 	if d < len(in.prefix) {
 		in.prefix[d].pos = in.pos
+		if in.prefix[d].forking {
+			in.forks++
+		}
 		return in.prefix[d].choice
 	}
 	alts := feas()
@@ -298,9 +325,28 @@ func (in *Interp) decide(feas func() []int) int {
 		in.prefix = append(in.prefix, decision{choice: -1, pos: in.pos})
 		in.endPath("infeasible")
 	}
-	in.prefix = append(in.prefix, decision{choice: alts[0], alts: alts[1:], pos: in.pos})
+	if len(alts) >= 2 {
+		in.forks++
+		if in.frontierDepth > 0 && in.forks > in.frontierDepth {
+			// hand every alternative of this decision over as a work item
+			base := make([]int, d)
+			for i := 0; i < d; i++ {
+				base[i] = in.prefix[i].choice
+			}
+			for _, a := range alts {
+				in.frontier = append(in.frontier, append(append([]int{}, base...), a))
+			}
+			in.nDec--
+			in.endPath("frontier")
+		}
+	}
+	in.prefix = append(in.prefix, decision{choice: alts[0], alts: alts[1:], pos: in.pos, forking: len(alts) >= 2})
 	return alts[0]
 }
+
+// replayedPinned reports whether the decision just taken lies inside the pinned
+// prefix of a worker (its effects were already accounted for by the coordinator).
+func (in *Interp) replayedPinned() bool { return in.nDec-1 < in.pinned }
 
 // branch decides a symbolic condition, forking when both sides are feasible.
 func (in *Interp) branch(c *Term) bool {
@@ -320,6 +366,9 @@ func (in *Interp) branch(c *Term) bool {
 		}
 		if rt == Unknown || rf == Unknown {
 			in.unconfirmed = true
+		}
+		if len(in.curFn) > 0 {
+			in.stats.ForkSites[in.curFn[len(in.curFn)-1].String()]++
 		}
 		return []int{1, 0}
 	})
@@ -393,7 +442,7 @@ func (in *Interp) mustHold(c *Term, kind, what string) {
 		return
 	case 1, 2:
 		key := kind + "|" + what + "|" + site
-		if !in.violSeen[key+fmt.Sprint(in.prefixKey())] {
+		if !in.violSeen[key+fmt.Sprint(in.prefixKey())] && !in.replayedPinned() {
 			in.violSeen[key+fmt.Sprint(in.prefixKey())] = true
 			in.handleViolation(kind, what, site, nc)
 		}
